@@ -17,7 +17,9 @@ where
     for (_, n) in g.iter() {
         nodes.push((n.key().clone(), n.value().clone()));
 
-        for Edge(u, v, e) in n.iter() {
+        // every edge is listed at both of its endpoints; write it once, from
+        // the endpoint that holds the outbound half
+        for Edge(u, v, e) in n.iter().take(n.outbound_len()) {
             edges.push((u.key().clone(), v.key().clone(), e));
         }
     }
